@@ -837,6 +837,15 @@ func (a *acc) routeMisfit(s *spec, m *misfit, which string) {
 	if a.verbose {
 		fmt.Printf("  %-14s %s %s\n", route, kind, text)
 	}
+	if kind == "accepted" && m.name == "{F:nil}" && s.ctor == "struct" && s.elem != nil && s.elem.t.Kind() == reflect.Struct && s.elem.t != timeType {
+		// a map whose F is nil, for a struct whose F is a struct held by value: nil is not one of its values (a field write of
+		// nil and a nil argument for it are refused), so it must not arrive as the zero struct either
+		stage := "field-write"
+		if which == "method" {
+			stage = "method-arg"
+		}
+		a.fail(in, s, "changed", stage, "nil-became-the-zero-struct", fmt.Sprintf("`%s` with p = {F: nil} and a target of type %s: accepted, Go holds a zero %s where the script passed nil", src, s.t, s.elem.t), "accepted", "an error")
+	}
 	if kind == "accepted" && numeric && o.obj == object.False {
 		stage := "field-write"
 		if which == "method" {
